@@ -4,7 +4,12 @@ package gen
 // Rand is splitmix64: every random choice of a run derives from one seed.
 type Rand struct{ s uint64 }
 
-func NewRand(seed uint64) *Rand { return &Rand{s: seed*0x9E3779B97F4A7C15 + 0x1234567} }
+func NewRand(seed uint64) *Rand {
+	// scramble the seed so that consecutive seeds give unrelated streams
+	z := (seed + 0x632BE59BD9B4E019) * 0xD6E8FEB86659FD93
+	z = (z ^ (z >> 32)) * 0xD6E8FEB86659FD93
+	return &Rand{s: z ^ (z >> 32)}
+}
 
 func (r *Rand) U64() uint64 {
 	r.s += 0x9E3779B97F4A7C15
